@@ -47,6 +47,7 @@ class Dim:
         return self.name
 
 
+DIM_LB = {}      # name -> known lower bound of a symbolic dimension on this path (a precondition of the case)
 DIMS = {}        # name -> Dim
 REP = {}         # path-local unification of dims proved equal (name -> Dim)
 IXDIM = {}       # index variable -> Dim | int
@@ -125,11 +126,44 @@ def same_dim(a, b):
 # term = (coef: Fraction, bound: tuple[str], factors: tuple[(atom, int)])
 # atom = ("el", name, ix...) | ("fn", f, E...) | ("dim", name) | ("dl", a, b)
 
+# index terms: a variable name, an int, or ("sh", base, s, dim): (base - s) mod size(dim)   (torch.roll)
+def _ix_occurs(i, k):
+    return i == k or (isinstance(i, tuple) and i[1] == k)
+
+
+def _ix_subst(i, m):
+    if isinstance(i, str):
+        return m.get(i, i)
+    if isinstance(i, tuple):
+        b = m.get(i[1], i[1]) if isinstance(i[1], str) else i[1]
+        s = i[2]
+        if isinstance(b, tuple):
+            s, b = s + b[2], b[1]
+        dsz = rep(DIMS[i[3]]) if i[3] in DIMS else None
+        if isinstance(b, int) and isinstance(dsz, int):
+            return (b - s) % dsz
+        if s == 0:
+            return b
+        return ("sh", b, s, i[3])
+    return i
+
+
+def _ix_val(i, env, sizes):
+    if isinstance(i, str):
+        return env[i]
+    if isinstance(i, tuple):
+        b = env[i[1]] if isinstance(i[1], str) else i[1]
+        dsz = rep(DIMS[i[3]])
+        n = dsz if isinstance(dsz, int) else sizes[dsz.name]
+        return (b - i[2]) % n
+    return i
+
+
 def _atom_occurs(a, k):
     if a[0] == "el":
-        return k in a[2:]
+        return any(_ix_occurs(i, k) for i in a[2:])
     if a[0] == "dl":
-        return k == a[1] or k == a[2]
+        return _ix_occurs(a[1], k) or _ix_occurs(a[2], k)
     if a[0] == "fn":
         return any(x.occurs(k) for x in a[2:])
     return False
@@ -137,15 +171,17 @@ def _atom_occurs(a, k):
 
 def _atom_subst(a, m):
     if a[0] == "el":
-        return ("el", a[1]) + tuple(m.get(i, i) if isinstance(i, str) else i for i in a[2:])
+        return ("el", a[1]) + tuple(_ix_subst(i, m) for i in a[2:])
     if a[0] == "dl":
-        return ("dl", m.get(a[1], a[1]) if isinstance(a[1], str) else a[1], m.get(a[2], a[2]) if isinstance(a[2], str) else a[2])
+        return ("dl", _ix_subst(a[1], m), _ix_subst(a[2], m))
     if a[0] == "fn":
         return ("fn", a[1]) + tuple(x.subst(m) for x in a[2:])
     return a
 
 
 def _ixs(i, env):
+    if isinstance(i, tuple):
+        return "(%s-%d mod %s)" % (_ixs(i[1], env), i[2], i[3])
     return env.get(i, i) if isinstance(i, str) else "#%d" % i
 
 
@@ -385,7 +421,8 @@ def _norm_term(c, bound, factors):
                     dw = IXDIM[w] if isinstance(w, str) else None
                     du = IXDIM[u]
                     ok = (dw is not None and rep(dw) is rep(du)) or (dw is not None and rep(dw) == rep(du)) or \
-                         (isinstance(w, int) and isinstance(rep(du), int) and 0 <= w < rep(du))
+                         (isinstance(w, int) and isinstance(rep(du), int) and 0 <= w < rep(du)) or \
+                         (isinstance(w, int) and isinstance(rep(du), Dim) and 0 <= w < DIM_LB.get(rep(du).name, 1))
                     if not ok:
                         continue
                     del d[a]
@@ -570,11 +607,11 @@ def ev(e, sizes, tensors, ixenv):
 
 def _ev_atom(a, sizes, tensors, env):
     if a[0] == "el":
-        idx = tuple(env[i] if isinstance(i, str) else i for i in a[2:])
+        idx = tuple(_ix_val(i, env, sizes) for i in a[2:])
         return float(tensors[a[1]][idx])
     if a[0] == "dl":
-        x = env[a[1]] if isinstance(a[1], str) else a[1]
-        y = env[a[2]] if isinstance(a[2], str) else a[2]
+        x = _ix_val(a[1], env, sizes)
+        y = _ix_val(a[2], env, sizes)
         return 1.0 if x == y else 0.0
     if a[0] == "dim":
         return float(sizes[a[1]])
@@ -1232,7 +1269,7 @@ def _select(t, d, c):
         c %= n
     elif c < 0:
         raise Unmodelled("negative index into a dimension of symbolic size")
-    else:
+    elif c >= DIM_LB.get(n.name, 1):
         vc = astvc.VC.cur()
         if not vc.decide(n.z > c):
             raise IndexError("index %d is out of bounds for dimension %d with size %s" % (c, d, n))
@@ -1360,10 +1397,49 @@ def _is_one_static(d):
     return isinstance(d, int) and d == 1
 
 
+@reg("roll")
+def _roll(t, shifts, dims=None):
+    v = val_of(t)
+    if dims is None:
+        raise Unmodelled("roll of the flattened tensor")
+    if isinstance(shifts, (tuple, list)):
+        if len(shifts) != 1:
+            raise Unmodelled("roll along several dimensions")
+        shifts, dims = shifts[0], (dims[0] if isinstance(dims, (tuple, list)) else dims)
+    ax = dims % v.ndim
+    dsz = rep(v.shape[ax])
+    k = fresh_ix(dsz)
+    if isinstance(dsz, int):
+        # element [j] of the result is element [(j - shifts) mod n]: written with deltas for a concrete size
+        body = ZERO
+        for j in range(dsz):
+            body = body + delta(k, j) * v.body.subst({v.ix[ax]: (j - shifts) % dsz})
+    else:
+        body = v.body.subst({v.ix[ax]: ("sh", k, int(shifts), dsz.name)})
+    return new(Val(v.shape, v.ix[:ax] + (k,) + v.ix[ax + 1:], body))
+
+
+def _int_list(k):
+    if isinstance(k, (list, tuple)) and k and all(isinstance(x, (int, np.integer)) and not isinstance(x, bool) for x in k):
+        return [int(x) for x in k]
+    if isinstance(k, np.ndarray) and k.dtype.kind in "iu" and k.ndim == 1:
+        return [int(x) for x in k.tolist()]
+    if isinstance(k, torch.Tensor) and not isinstance(k, GT) and k.dtype in (torch.long, torch.int) and k.dim() == 1:
+        return [int(x) for x in k.tolist()]
+    return None
+
+
 @reg("__getitem__")
 def _getitem(t, key):
     if not isinstance(key, tuple):
         key = (key,)
+    if any(_int_list(k) is not None for k in key):
+        # one list of column numbers (the region of a SWAP): a copy holding those columns, in order
+        pos = [i for i, k in enumerate(key) if _int_list(k) is not None]
+        if len(pos) != 1 or any(not (isinstance(k, slice) and k == slice(None)) for i, k in enumerate(key) if i != pos[0]):
+            raise Unmodelled("advanced indexing other than [:, list]")
+        ax, cols = pos[0], _int_list(key[pos[0]])
+        return _cat([_unsqueeze(_select(t, ax, c), ax) for c in cols], ax)
     v = val_of(t)
     n_real = sum(1 for k in key if k is not None and k is not Ellipsis)
     out = []
@@ -1391,6 +1467,20 @@ def _getitem(t, key):
 
 @reg("__setitem__")
 def _setitem(t, key, value):
+    kt = key if isinstance(key, tuple) else (key,)
+    if any(_int_list(k) is not None for k in kt):
+        pos = [i for i, k in enumerate(kt) if _int_list(k) is not None]
+        if len(pos) != 1 or any(not (isinstance(k, slice) and k == slice(None)) for i, k in enumerate(kt) if i != pos[0]):
+            raise Unmodelled("advanced index assignment other than [:, list] = ...")
+        ax, cols = pos[0], _int_list(kt[pos[0]])
+        src = value if isinstance(value, GT) else new(val_of(value))
+        sv = val_of(src)
+        if sv.ndim != val_of(t).ndim or rep(sv.shape[ax]) != len(cols):
+            raise Unmodelled("advanced index assignment with a broadcast right-hand side")
+        pieces = [val_of(_select(src, ax, j)) for j in range(len(cols))]      # read everything first (the source may alias t)
+        for c, pv in zip(cols, pieces):
+            write(_select(t, ax, c), pv, "__setitem__")
+        return None
     dst = _getitem(t, key)
     dv = val_of(dst)
     r = ewise(lambda x: x, value)
@@ -1404,6 +1494,9 @@ def _setitem(t, key, value):
 
 @reg("cat", "concatenate", "concat")
 def _cat(ts, dim=0, *, out=None):
+    ts = list(ts)
+    if len(ts) == 1:
+        return _out(val_of(ts[0]), out, "cat")
     vals = [val_of(x) for x in ts]
     n = vals[0].ndim
     dim = dim % n
@@ -1717,7 +1810,15 @@ def explore(vc, thunk, tag=""):
     return vc.explore(run, tag)
 
 
+def require_at_least(d, n):
+    """Precondition of a case: dimension d has at least n entries."""
+    d = dim(d) if isinstance(d, str) else d
+    DIM_LB[d.name] = max(DIM_LB.get(d.name, 1), n)
+    astvc.VC.cur().assume(astvc.SymBool(d.z >= n))
+
+
 def reset_path():
+    DIM_LB.clear()
     REP.clear()
     del FRAME_WRITES[:]
     INPUTS.clear()
